@@ -509,11 +509,20 @@ func (x *LabelExec) Apply(op drv.Op) (handled bool, v *drv.Violation, err error)
 				big = append(big, b)
 			}
 		}
-		mode := r.IntN(4)
+		mode := r.IntN(5)
 		if m := os.Getenv("VERIF_PARMODE"); m != "" { // diagnosis only
 			mode = int(m[0] - '0')
 		}
+		chained := false
 		switch {
+		case mode == 4 && len(bodies) >= 3:
+			// chained merges: X into T while Y is merged into X.  Either Y ends up in T with X (Y->X took effect first),
+			// or the merge into the vanished X is refused; both acknowledged means everything is in T.
+			sh := append([]uint64(nil), bodies...)
+			r.Shuffle(len(sh), func(i, j int) { sh[i], sh[j] = sh[j], sh[i] })
+			plan = append(plan, mergeOf(sh[0], []uint64{sh[1]}, "c1"), mergeOf(sh[1], []uint64{sh[2]}, "c2"))
+			chained = true
+			w.Stats.Probe("concurrent-chained-merges")
 		case mode == 0 && len(big) > 0:
 			b := pick(r, big)
 			svs := append([]uint64(nil), bs[b]...)
@@ -578,6 +587,10 @@ func (x *LabelExec) Apply(op drv.Op) (handled bool, v *drv.Violation, err error)
 		var newLabels, mutIDs []uint64
 		for i, rp := range res.Resps {
 			pl := plan[i]
+			if rp.Status != 200 && chained && i == 1 {
+				w.Stats.Probe("chained-merge-into-vanished-body-refused")
+				continue
+			}
 			if rp.Status != 200 {
 				return true, x.viol("write-ack", "valid concurrent label operation refused", fmt.Sprintf("%s (issued together with %d others) -> %d %s", pl.desc, len(plan)-1, rp.Status, trunc(rp.Body))), nil
 			}
@@ -601,6 +614,15 @@ func (x *LabelExec) Apply(op drv.Op) (handled bool, v *drv.Violation, err error)
 					}
 				}
 			}
+		}
+		if chained && res.Resps[1].Status == 200 {
+			// Y->X was acknowledged, so it preceded X->T: everything that maps to X is in T now
+			for sv, b := range lv.Map {
+				if b == plan[0].from[0] {
+					lv.Map[sv] = plan[0].into
+				}
+			}
+			w.Stats.Probe("chained-merges-both-acknowledged")
 		}
 		sort.Slice(newLabels, func(i, j int) bool { return newLabels[i] < newLabels[j] })
 		sort.Slice(mutIDs, func(i, j int) bool { return mutIDs[i] < mutIDs[j] })
